@@ -521,7 +521,11 @@ def sib_iter(ctx: Ctx) -> List[Ob]:
             ok = method_case(pcs) == "level" and bool(first) and never_after(ctx, f, lc, loops[0]) \
                 and any((not pol) and any(any(c is x for x in ast.walk(getattr(e, "_orig", e))) for c in first) for e, pol in pcs) \
                 and any((not pol) and norm(e) == "method == IterMethod.LEVEL_ORDER" for e, pol in path_conds(ctx, f, loops[0]))
-        if ok is False and len(lvl_calls) == 1 and len(loops) == 1 and never_after(ctx, f, lvl_calls[0], loops[0]) and method_case(path_conds(ctx, f, lvl_calls[0])) == "level":
+        discarded = [c for c in cbs if len(lvl_calls) == 1 and isinstance(ctx.model.parent_of(c), ast.Expr) and never_after(ctx, f, lvl_calls[0], c)
+                     and not never_after(ctx, f, c, lvl_calls[0])]
+        if discarded:
+            ok = False  # witness: the start node's verdict is thrown away before the level walk
+        elif ok is False and len(lvl_calls) == 1 and len(loops) == 1 and never_after(ctx, f, lvl_calls[0], loops[0]) and method_case(path_conds(ctx, f, lvl_calls[0])) == "level":
             ok = None  # no witness: the level walk is selected by the method and does not fall through
         obs.append(ctx.tri("SIB-ITER", ["C06"], f, "visit: level-order visits self first (add_self), then the levels, then returns", None, ok,
                            "the level-order branch must not fall through to the depth-first code"))
